@@ -29,3 +29,170 @@ package selector
 //@   ensures[C07] ok ==> f == normFrom(from, length) && t == normTo(to, length)
 //@   ensures[C07] ok == (normFrom(from, length) <= normTo(to, length) && normFrom(from, length) < length)
 //@   ensures[C07] !ok ==> f == 0 && t == 0
+
+// ---- clause algebra (from the selector specification, C07) ----
+
+//@ func (ExploreAll).Interests() (r)
+//@   assigns nothing
+//@   ensures[C07] r == nil
+//@ func (ExploreAll).Explore(n, p) (r, err)
+//@   assigns nothing
+//@   ensures[C07] err == nil && r == s.next
+//@ func (ExploreAll).Match(node) (r, err)
+//@   assigns nothing
+//@   ensures[C07] r == nil && err == nil
+
+//@ func (ExploreIndex).Interests() (r)
+//@   assigns nothing
+//@   ensures[C07] len(r) == 1 && r[0] == s.interest[0]
+//@ func (ExploreIndex).Explore(n, p) (r, err)
+//@   requires n != nil
+//@   assigns nothing
+//@   ensures[C07] err == nil && (r == nil || r == s.next)
+//@   ensures[C07] datamodel.vkind(n.val) != datamodel.Kind_List ==> r == nil
+//@   ensures[C07] datamodel.vkind(n.val) == datamodel.Kind_List && p.i >= 0 && s.interest[0].i >= 0 ==> (p.i == s.interest[0].i ==> r == s.next) && (p.i != s.interest[0].i ==> r == nil)
+//@ func (ExploreIndex).Match(node) (r, err)
+//@   assigns nothing
+//@   ensures[C07] r == nil && err == nil
+
+//@ func (ExploreRange).Interests() (r)
+//@   assigns nothing
+//@   ensures[C07] r == s.interest
+//@ func (ExploreRange).Explore(n, p) (r, err)
+//@   requires n != nil
+//@   assigns nothing
+//@   ensures[C07] err == nil && (r == nil || r == s.next)
+//@   ensures[C07] datamodel.vkind(n.val) != datamodel.Kind_List ==> r == nil
+//@   ensures[C07] datamodel.vkind(n.val) == datamodel.Kind_List && p.i >= 0 ==> (s.start <= p.i && p.i < s.end ==> r == s.next) && (!(s.start <= p.i && p.i < s.end) ==> r == nil)
+//@ func (ExploreRange).Match(node) (r, err)
+//@   assigns nothing
+//@   ensures[C07] r == nil && err == nil
+
+//@ func (ExploreFields).Interests() (r)
+//@   assigns nothing
+//@   ensures[C07] r == s.interests
+//@ func (ExploreFields).Explore(n, p) (r, err)
+//@   assigns nothing
+//@   ensures[C07] err == nil && (indom(s.selections, datamodel.segstr(p)) ==> r == s.selections[datamodel.segstr(p)]) && (!indom(s.selections, datamodel.segstr(p)) ==> r == nil)
+//@ func (ExploreFields).Match(node) (r, err)
+//@   assigns nothing
+//@   ensures[C07] r == nil && err == nil
+
+//@ func (Matcher).Interests() (r)
+//@   ensures[C07] r != nil && len(r) == 0
+//@ func (Matcher).Explore(n, p) (r, err)
+//@   assigns nothing
+//@   ensures[C07] r == nil && err == nil
+//@ func (Matcher).Match(node) (r, err)
+//@   requires s.Slice != nil ==> node != nil
+//@   ensures[C07] s.Slice == nil ==> r == node && err == nil
+
+//@ func (ExploreUnion).Explore(n, p) (r, err)
+//@   requires forall i mathint :: 0 <= i && i < len(s.Members) ==> s.Members[i] != nil
+//@   loop 0 invariant 0 - 1 <= rangeindex && rangeindex < len(s.Members)
+//@   loop 0 invariant forall i mathint :: 0 <= i && i < len(s.Members) ==> s.Members[i] != nil
+//@   loop 0 assigns foreign
+//@ func (ExploreUnion).Match(n) (r, err)
+//@   requires forall i mathint :: 0 <= i && i < len(s.Members) ==> s.Members[i] != nil
+//@   loop 0 invariant 0 - 1 <= rangeindex && rangeindex < len(s.Members)
+//@   loop 0 invariant forall i mathint :: 0 <= i && i < len(s.Members) ==> s.Members[i] != nil
+//@   loop 0 assigns foreign
+//@ func (ExploreUnion).Interests() (r)
+//@   requires forall i mathint :: 0 <= i && i < len(s.Members) ==> s.Members[i] != nil
+//@   loop 0 invariant 0 - 1 <= rangeindex && rangeindex < len(s.Members)
+//@   loop 0 invariant forall i mathint :: 0 <= i && i < len(s.Members) ==> s.Members[i] != nil
+//@   loop 0 assigns foreign
+//@   loop 1 invariant 0 - 1 <= rangeindex && rangeindex < len(s.Members)
+//@   loop 1 invariant forall i mathint :: 0 <= i && i < len(s.Members) ==> s.Members[i] != nil
+//@   loop 1 assigns foreign
+
+//@ func (ExploreRecursiveEdge).Explore(n, p) (r, err)
+//@ func (ExploreRecursiveEdge).Interests() (r)
+//@ func (ExploreRecursiveEdge).Match(node) (r, err)
+
+// ---- recursion: limits only count down, the edge is replaced by the sequence ----
+
+//@ func (ExploreRecursive).hasRecursiveEdge(nextSelector) (r)
+//@   assigns nothing
+//@   ensures[C07] dyntype(nextSelector, "ExploreRecursiveEdge") ==> r
+//@   ensures[C07] !dyntype(nextSelector, "ExploreRecursiveEdge") && !dyntype(nextSelector, "ExploreUnion") ==> !r
+//@   loop 0 invariant 0 - 1 <= rangeindex && rangeindex < len(exploreUnion.Members)
+//@ func (ExploreRecursive).replaceRecursiveEdge(nextSelector, replacement) (r)
+//@   assigns nothing
+//@   ensures[C07] dyntype(nextSelector, "ExploreRecursiveEdge") ==> r == replacement
+//@   ensures[C07] !dyntype(nextSelector, "ExploreRecursiveEdge") && !dyntype(nextSelector, "ExploreUnion") ==> r == nextSelector
+//@   loop 0 invariant 0 - 1 <= rangeindex && rangeindex < len(exploreUnion.Members) && fresh(replacementMembers)
+//@ func (*Condition).Match(n) (r)
+//@   assigns nothing
+
+//@ func (ExploreRecursive).Explore(n, p) (r, err)
+//@   requires n != nil && s.current != nil && (s.limit.mode == RecursionLimit_None || s.limit.mode == RecursionLimit_Depth)
+//@   ensures[C07] dyntype(s.current, "ExploreRecursiveEdge") && s.stopAt == nil ==> r == nil && err == nil
+//@   ensures[C07] r != nil && (s.limit.mode == RecursionLimit_None || s.limit.depth >= 2) ==> dyntype(r, "ExploreRecursive") && unbox(r, "ExploreRecursive").sequence == s.sequence && unbox(r, "ExploreRecursive").stopAt == s.stopAt
+//@   ensures[C07] r != nil && (s.limit.mode == RecursionLimit_None || s.limit.depth >= 2) ==> unbox(r, "ExploreRecursive").limit.mode == s.limit.mode && (unbox(r, "ExploreRecursive").limit.depth == s.limit.depth || (s.limit.mode == RecursionLimit_Depth && unbox(r, "ExploreRecursive").limit.depth == s.limit.depth - 1))
+//@   ensures[C07] r != nil && s.limit.mode == RecursionLimit_None ==> unbox(r, "ExploreRecursive").limit.depth == s.limit.depth
+
+// ---- compilation: never panics on any node obeying the Node interface contract (C10) ----
+
+//@ func (ParseContext).ParseSelector(n) (r, err)
+//@   requires n != nil && (forall i mathint :: 0 <= i && i < len(pc.parentStack) ==> pc.parentStack[i] != nil)
+//@   assigns foreign
+//@   ensures[C10] err == nil ==> r != nil
+//@ func (ParseContext).ParseExploreAll(n) (r, err)
+//@   requires n != nil && (forall i mathint :: 0 <= i && i < len(pc.parentStack) ==> pc.parentStack[i] != nil)
+//@   assigns foreign
+//@   ensures[C10] err == nil ==> r != nil
+//@ func (ParseContext).ParseExploreIndex(n) (r, err)
+//@   requires n != nil && (forall i mathint :: 0 <= i && i < len(pc.parentStack) ==> pc.parentStack[i] != nil)
+//@   assigns foreign
+//@   ensures[C10] err == nil ==> r != nil
+//@ func (ParseContext).ParseExploreRange(n) (r, err)
+//@   requires n != nil && (forall i mathint :: 0 <= i && i < len(pc.parentStack) ==> pc.parentStack[i] != nil)
+//@   assigns foreign
+//@   ensures[C10] err == nil ==> r != nil
+//@ func (ParseContext).ParseExploreFields(n) (r, err)
+//@   requires n != nil && (forall i mathint :: 0 <= i && i < len(pc.parentStack) ==> pc.parentStack[i] != nil)
+//@   assigns foreign
+//@   loop 0 assigns foreign, x, itr.pos
+//@   loop 0 invariant itr != nil && x.selections != nil && fresh(x.selections) && fresh(x.interests)
+//@   ensures[C10] err == nil ==> r != nil
+//@ func (ParseContext).ParseExploreUnion(n) (r, err)
+//@   requires n != nil && (forall i mathint :: 0 <= i && i < len(pc.parentStack) ==> pc.parentStack[i] != nil)
+//@   assigns foreign
+//@   loop 0 assigns foreign, x, itr.pos
+//@   loop 0 invariant itr != nil && fresh(x.Members)
+//@   ensures[C10] err == nil ==> r != nil
+//@ func (ParseContext).ParseExploreRecursive(n) (r, err)
+//@   requires n != nil && (forall i mathint :: 0 <= i && i < len(pc.parentStack) ==> pc.parentStack[i] != nil)
+//@   assigns foreign
+//@   ensures[C10] err == nil ==> r != nil
+//@ interface ParsedParent.Link(s) (r)
+//@   assigns foreign
+//@ func (ParseContext).ParseExploreRecursiveEdge(n) (r, err)
+//@   requires n != nil && (forall i mathint :: 0 <= i && i < len(pc.parentStack) ==> pc.parentStack[i] != nil)
+//@   assigns foreign
+//@   ensures[C10] err == nil ==> r != nil
+//@   loop 0 assigns foreign
+//@   loop 0 invariant 0 - 1 <= rangeindex && rangeindex < len(pc.parentStack)
+//@   loop 0 invariant forall i mathint :: 0 <= i && i < len(pc.parentStack) ==> pc.parentStack[i] != nil
+//@ func (ParseContext).ParseExploreInterpretAs(n) (r, err)
+//@   requires n != nil && (forall i mathint :: 0 <= i && i < len(pc.parentStack) ==> pc.parentStack[i] != nil)
+//@   assigns foreign
+//@   ensures[C10] err == nil ==> r != nil
+//@ func (ParseContext).ParseMatcher(n) (r, err)
+//@   requires n != nil
+//@   assigns foreign
+//@   ensures[C10] err == nil ==> r != nil
+//@ func (ParseContext).ParseCondition(n) (r, err)
+//@   requires n != nil
+//@   assigns foreign
+//@ func parseLimit(n) (r, err)
+//@   requires n != nil
+//@   assigns nothing
+//@   ensures[C07,C10] err == nil ==> r.mode == RecursionLimit_None || r.mode == RecursionLimit_Depth
+//@ func (ParseContext).PushParent(parent) (r)
+//@   assigns nothing
+//@   ensures[C10] len(r.parentStack) == len(pc.parentStack) + 1 && r.parentStack[0] == parent
+//@   ensures[C10] forall j mathint :: 1 <= j && j < len(r.parentStack) ==> r.parentStack[j] == pc.parentStack[j-1]
+//@ func (Slice).Slice(n) (r, err)
+//@   requires n != nil
